@@ -534,11 +534,24 @@ class C13:
                 return
         if cfg.get('excluded'):
             return      # the generating parameters are out of reach
-        if cfg.get('onbound') and fev['tags'].get('sub'):
-            # a start on a bound *and* a random pixel subset: the r-z-alpha
-            # valley is flat enough for the search to end early (1% off with
-            # the unmodified minimiser); recovery from a bound is judged on
-            # full images only
+        if cfg.get('onbound'):
+            # a start exactly on a prior bound: the unmodified minimisers move
+            # off the bound but can end the search early in the flat r-z-alpha
+            # valley (1-2 % off), so full recovery is not demanded.  What is
+            # demanded: the parameter must not stay *on* a bound that the
+            # generating value lies strictly inside of.
+            k = cfg['onbound']
+            a = cfg['priors'][k]['args']
+            g = cfg['guesses'][k]
+            if k in pars and not fev['tags'].get('model2') and \
+                    a['lo'] < cfg['truth'][k] < a['hi'] and pars[k] == g \
+                    and g in (a['lo'], a['hi']):
+                ex.add(violation(
+                    'C13.recover', ev['id'],
+                    '%s started on its prior bound %r and never left it, '
+                    'although the generating value %r lies inside the bounds'
+                    % (k, g, cfg['truth'][k]),
+                    sig='C13.recover:stuck-on-bound:' + fev['tags']['k']))
             return
         truth = cfg['truth']
         worst = 0.0
